@@ -16,19 +16,19 @@ CHECKS = {
    ref="DESIGN.md §5 C01",
    note="Generated/Ranking.lean (harness/translate_ranking.py): pipe_ssporFit – the statements after the optimizer call are tailShuffle σ m for every ranking, mode count, sensor count and permutation oracle (seed must reach np.random.default_rng unmodified); selection_<method>_k – every slice of ranked_sensors_ in predict / get_selected_sensors is selectLead n_sensors. LAPACK geqp3's pivot vector (QR) is a parameter, checked directly on each sample; numpy's Generator.permutation is the σ parameter."),
  "C03": dict(
-   cat="proof", technique="Lean 4 theorems over an exact Gram/Schur model (greedy rule = max MGS residual) + ε-acceptance of real pivot traces",
+   cat="proof", technique="Lean 4 theorems over an exact Gram/Schur model (greedy rule = max MGS residual) + ε-acceptance of real pivot traces + translator regenerating pivot rule, reflector steps and loop-operation order of CCQR.fit / qr_reflector / GQR.fit from the AST (prog = spec by decide; reflector steps denote `reflector`, pivot rule = model argmax)",
    text="qr_pick_max_mgs_residual proves that every pick of the exact model has the largest modified-Gram–Schmidt residual among "
         "unranked sensors (with the orthogonal-residual characterisation, independence of leading rows, CCQR()/GQR() = QR in the model); "
         "householder_loop_refines_schur_model proves that the elimination loop of CCQR.fit over the reals (any pivot sequence, any rank) has exactly the model's Gram state, and code_argmax_is_model_argmax that argmax(dlens − costs) is the model's decision; "
         "real QR/CCQR/GQR/SSPOR traces are replayed through the model's executable definitions with per-step budgets 1e-12·scale·conditioning and per-step norm taps.",
    ref="DESIGN.md §5 C03",
-   note="Floating point is not modelled: ties within the budget are accepted either way and traces after an exactly-zero pivot with non-zero float residual are not judged (counted); that the float code is the algorithm of the loop theorem is tied by the per-step norm tap and the pivot traces; LAPACK geqp3 trusted but judged on each sample."),
+   note="Generated/Householder.lean (harness/translate_householder.py): hh_CCQR / hh_GQR (program as written = the program hhStep / reflectorAt were transcribed from), hh_*_reflector (its steps denote the reflector of Lemmas/Householder.lean), hh_CCQR_pick (its pivot rule is firstArgmaxBy scoreGe); the order of the array operations is compared structurally, not given a matrix semantics. Floating point is not modelled: ties within the budget are accepted either way and traces after an exactly-zero pivot with non-zero float residual are not judged (counted); that the float code is the algorithm of the loop theorem is tied by the per-step norm tap and the pivot traces; LAPACK geqp3 trusted but judged on each sample."),
  "C04": dict(
-   cat="proof", technique="Lean 4 theorems (exact decision of sqrt(a)-c >= sqrt(b)-d against Real.sqrt; greedy maximality; shift invariance) + replay of tapped CCQR traces",
+   cat="proof", technique="Lean 4 theorems (exact decision of sqrt(a)-c >= sqrt(b)-d against Real.sqrt; greedy maximality; shift invariance) + replay of tapped CCQR traces + translator regenerating pivot rule, reflector steps and loop-operation order of CCQR.fit / qr_reflector / GQR.fit from the AST (prog = spec by decide; reflector steps denote `reflector`, pivot rule = model argmax)",
    text="ccqr_greedy_max (for every residual system and cost vector the pick maximises √resid²−cost over the reals), ccqr_shift_invariant, "
         "ccqr_zero_eq_qr, ccqr_prohibitive, zero_pivot_removes_nothing; the real CCQR trace (tapped through qr_reflector) is replayed in the exact model.",
    ref="DESIGN.md §5 C04",
-   note="Holds on /repo after fix commit d029e07 (zero-residual pivot). Rounding budgeted as for C03."),
+   note="Generated/Householder.lean (harness/translate_householder.py): hh_CCQR / hh_GQR (program as written = the program hhStep / reflectorAt were transcribed from), hh_*_reflector (its steps denote the reflector of Lemmas/Householder.lean), hh_CCQR_pick (its pivot rule is firstArgmaxBy scoreGe); the order of the array operations is compared structurally, not given a matrix semantics. Holds on /repo after fix commit d029e07 (zero-residual pivot). Rounding budgeted as for C03."),
  "C05": dict(
    cat="proof", technique="Lean 4 theorems for every residual system (counting/coincidence arguments over the masked greedy run) + compiler from the Python source of the three mask functions to Lean functions, each proved equal to the model's masks on every run + bit-exact differential of the mask functions",
    text="harness/translate_normcalc.py compiles max_n / exact_n / predetermined of _norm_calc.py statement by statement (assignments, +=, in-place zeroing, if/else, the counting loop as a fold, np.isin / slices / masks; keyword presence decided from GQR.fit's call) into Generated/NormCalcDefs.lean; "
@@ -37,11 +37,11 @@ CHECKS = {
    ref="DESIGN.md §5 C05",
    note="The compiler's reading of the numpy fragment (Model/NpLite.lean: isin, boolean selection, slices, zeroing as a zero pattern) is trusted and exercised by the bit-exact differential. Hypothesis GqrSetup.hA (the supplied ranking's first N entries are the model's own unconstrained picks) excludes inputs where LAPACK broke an exact tie differently: that input class is a listed known finding."),
  "C06": dict(
-   cat="proof", technique="Lean 4 theorems (own-class maximality, inactive constraint = QR, allowance 0 = CCQR with prohibitive cost) + mask functions recompiled from the source and proved equal to the model's masks + replay of real GQR traces",
+   cat="proof", technique="Lean 4 theorems (own-class maximality, inactive constraint = QR, allowance 0 = CCQR with prohibitive cost) + mask functions recompiled from the source and proved equal to the model's masks + replay of real GQR traces + translator regenerating pivot rule, reflector steps and loop-operation order of CCQR.fit / qr_reflector / GQR.fit from the AST (prog = spec by decide; reflector steps denote `reflector`, pivot rule = model argmax)",
    text="gqr_own_class_max, gqr_inactive_eq_qr, gqr_s0_eq_ccqr_prohibitive for every residual system and option (about GqrCfg.mask, which the regenerated theorems mask_max_n / mask_exact_n / mask_predetermined of C05's compiler tie to the current source of _norm_calc.py on every run); own-class maximality and the two "
         "reductions are judged on real runs along the exact model.",
    ref="DESIGN.md §5 C06",
-   note="Reductions are compared on real runs only where every exact greedy choice is unique by more than the budget."),
+   note="Generated/Householder.lean (harness/translate_householder.py): hh_CCQR / hh_GQR (program as written = the program hhStep / reflectorAt were transcribed from), hh_*_reflector (its steps denote the reflector of Lemmas/Householder.lean), hh_CCQR_pick (its pivot rule is firstArgmaxBy scoreGe); the order of the array operations is compared structurally, not given a matrix semantics. Reductions are compared on real runs only where every exact greedy choice is unique by more than the budget."),
  "C02": dict(
    cat="proof", technique="Lean 4 theorems (normal equations + injective sensor rows => coefficients recovered) over a certifying exact rational solver + differential against real predict",
    text="recon_exact / recon_exact_square / more_sensors_injective / independent_rows_injective prove that in-span signals are reproduced at every location whenever the selected rows have full column rank "
